@@ -242,8 +242,31 @@ func (self *Analyzer) typeDefStatement(node pAst.TypeDefinition) ast.AnalyzedTyp
 // Singleton declaration statement
 //
 
+// Reports the first component of a type for which no default value exists (a singleton which is not provided by the host starts as the default value of its type).
+func typeWithoutDefaultValue(typ ast.Type) ast.Type {
+	switch typ.Kind() {
+	case ast.FnTypeKind, ast.AnyTypeKind:
+		return typ
+	case ast.ObjectTypeKind:
+		for _, field := range typ.(ast.ObjectType).ObjFields {
+			if inner := typeWithoutDefaultValue(field.Type); inner != nil {
+				return inner
+			}
+		}
+	}
+	return nil
+}
+
 func (self *Analyzer) singletonDeclStatement(node pAst.SingletonTypeDefinition) ast.AnalyzedSingletonTypeDefinition {
 	converted := self.ConvertType(node.Type, true)
+
+	if culprit := typeWithoutDefaultValue(converted); culprit != nil {
+		self.error(
+			fmt.Sprintf("Type '%s' cannot be used in a singleton: it has no default value", culprit.Kind()),
+			[]string{"A singleton which the host does not provide starts as the default value of its type"},
+			culprit.Span(),
+		)
+	}
 
 	singleton, found := self.currentModule.Singletons[node.Ident.Ident()]
 	if found {
